@@ -1,5 +1,18 @@
-"""code -> spec for C05 (filled in once hook H3 exists)."""
+"""code -> spec for C05: recorded collect_quantity traces validated by spec/CollectTrace.tla."""
+from . import collect_trace, qc_common
 
 
 def validate(run, sc, tier):
-    return
+    from symplyphysics import Quantity
+    merged = collect_trace.record_tests(sc, tier, run.seed)
+    run.coverage["recorder"] = {k: merged[k] for k in ("events", "files", "pytest_rc", "pytest_tail", "dropped")}
+    if merged["pytest_rc"] != 0:
+        run.outside(f"pytest under the recorder ended with rc={merged['pytest_rc']} (not this property's verdict)")
+    collect_trace.validate_traces(run, sc, merged["traces"], "q", "tests")
+    leaves = qc_common.setup()
+    cases = getattr(run, "cases_for_traces", [])
+    prog = collect_trace.record_programs(cases, lambda c: qc_common.build(c["p"], leaves, False), Quantity,
+                                         4000 if tier == "quick" else 40000, run.seed)
+    for k, v in prog["dropped"].items():
+        run.outside(f"recorder: {k}", v)
+    collect_trace.validate_traces(run, sc, prog["traces"], "q", "programs")
